@@ -147,9 +147,9 @@ class ToyGraph:
     def from_json(d):
         return ToyGraph(d["nodes"], d["n_ind"], d.get("dtype", "int64"))
 
-    def tensor(self, v):
+    def tensor(self, v, dtype=None):
         import torch
-        dt = torch.int64 if self.dtype == "int64" else torch.float64
+        dt = {"int64": torch.int64, "float64": torch.float64, "float32": torch.float32}[dtype or self.dtype]
         if isinstance(v, list):
             return torch.tensor([atom_py(a) for a in v], dtype=dt)
         return torch.tensor(atom_py(v), dtype=dt)
@@ -609,6 +609,24 @@ def probe_of(st):
     return p
 
 
+ALIAS_HOWS = ("same", "view", "bcast", "expand")
+
+
+def op_extra(op):
+    """optional trailing dict of a `set` (op[4]) / `put` (op[6]) operation:
+      {"alias": [src_state, src_name, how]}   (set only) the value assigned is NOT a fresh tensor but the tensor object another independent
+                                              variable currently holds (`same`), a view of it (`view`: `t[...]`; `bcast`: what
+                                              `torch.broadcast_tensors(t, scalar)[0]` returns — the prior-mode initialisation of leaspy's latent
+                                              variables; `expand`: a 0-d source expanded to the individual axis); op[3] is (re)written with the
+                                              value of the source when the operation is executed.  Value semantics (the model's): exactly
+                                              `set name := <that value>`;
+      {"dtype": "float32"|"float64"|"int64"}  the assigned / added tensor is built with this dtype instead of the graph's."""
+    i = {"set": 4, "put": 6}.get(op[0])
+    if i is not None and len(op) > i and isinstance(op[i], dict):
+        return op[i]
+    return {}
+
+
 class BadHandle(Exception):
     """the harness's handle names no state (model: Err Crash)"""
 
@@ -673,6 +691,11 @@ class Session:
         self._raised = None           # the exception on its way out of the enclosing blocks
         self._last_exc = None
         self._step = 0
+        self.dtype_strict = True      # the from-scratch oracle compares dtypes too (False: same numbers in another dtype are only counted)
+        self.dtype_only_diffs = 0
+        self.alias_sets = 0           # assignments of a tensor object (or a view of one) that another independent variable holds
+        self.alias_puts = {}          # (indexed|full, mode) -> puts executed on a variable that shared storage with another one
+        self.alias_effects = []       # an independent value that changed although the operation did not assign it
         self.states = [State(G.dag)]
         self.taint = [set()]          # per state: 'unforked' (F1 precondition met), 'mask' (misuse of partial revert)
         self.records = []             # (op, out, ok_flag)
@@ -722,11 +745,18 @@ class Session:
             if kind == "isset":
                 return ("okb", bool(st.is_variable_set(op[2])))
             if kind == "set":
-                st[op[2]] = None if op[3] is None else G.tensor(op[3])
+                ex = op_extra(op)
+                alias = self._alias_tensor(op) if ex.get("alias") else None
+                if alias is not None:
+                    op[3] = val_json(alias)          # the value the model is given: the source's value at this point of the history
+                    self.alias_sets += 1
+                    st[op[2]] = alias
+                else:
+                    st[op[2]] = None if op[3] is None else G.tensor(op[3], ex.get("dtype"))
                 return ("done",)
             if kind == "put":
-                _, _, name, idx, v, acc = op
-                st.put(name, G.tensor(v), indices=() if idx is None else (idx,), accumulate=bool(acc))
+                name, idx, v, acc = op[2:6]
+                st.put(name, G.tensor(v, op_extra(op).get("dtype")), indices=() if idx is None else (idx,), accumulate=bool(acc))
                 return ("done",)
             if kind == "revert":
                 st.revert()
@@ -760,6 +790,67 @@ class Session:
         except Exception as e:  # noqa: any other exception class
             self._last_exc = e
             return ("err", "crash")
+
+    # -- aliasing: two independent variables holding the same tensor object / views of one storage
+    def _alias_tensor(self, op):
+        """the tensor a `set` with {"alias": [src_state, src_name, how]} assigns: the object the source holds, or a view of it
+        (None: source absent / unset / of another shape -> the operation is the plain assignment of op[3])"""
+        import torch
+        sk, sn, how = op_extra(op)["alias"]
+        if sk >= len(self.states) or sn not in self.G.by_name:
+            return None
+        t = self.states[sk]._values.get(sn)
+        if t is None or hasattr(t, "weighted_value"):
+            return None
+        want_ind = self.G.by_name.get(op[2], {}).get("kind") == "ind"
+        if how == "expand":
+            return t.expand(self.G.n_ind) if (t.ndim == 0 and want_ind) else None
+        if (t.ndim == 1) != want_ind:
+            return None
+        if how == "same":
+            return t
+        if how == "view":
+            return t[...]
+        return torch.broadcast_tensors(t, torch.ones((), dtype=t.dtype))[0]      # what Normal.mode does with (loc, scale)
+
+    def indep_names(self):
+        return [n for n in self.G.order if self.G.by_name[n]["kind"] in ("pop", "ind", "hyper")]
+
+    def _snapshot(self):
+        """independent values of every state, BY VALUE (clones): what value semantics says they still are after an operation that
+        does not assign them"""
+        return [{n: (None if st._values[n] is None else st._values[n].clone()) for n in self.indep_names()} for st in self.states]
+
+    def _shares_storage(self, k, name):
+        t = self.states[k]._values.get(name)
+        if t is None or hasattr(t, "weighted_value"):
+            return False
+        ptr = t.untyped_storage().data_ptr()
+        for j, st in enumerate(self.states):
+            for n in self.indep_names():
+                if (j, n) != (k, name):
+                    u = st._values[n]
+                    if u is not None and not hasattr(u, "weighted_value") and u.untyped_storage().data_ptr() == ptr:
+                        return True
+        return False
+
+    def _check_kept(self, snap, allowed, op):
+        """every independent value the operation did not assign is bit-identical (dtype and shape included) to its snapshot; returns
+        per state the values that value semantics prescribes for the ones that are not"""
+        prescribed = {}
+        for j, vals in enumerate(snap):
+            st = self.states[j]
+            for n, old in vals.items():
+                if (j, n) in allowed:
+                    continue
+                cur = st._values[n]
+                if not same_tensor(old, cur):
+                    prescribed.setdefault(j, {})[n] = old
+                    e = dict(step=self._step, state=j, node=n, taint=sorted(self.taint[j] | {"alias-effect"}),
+                             expected=val_json(old), observed=val_json(cur), by=list(op[:3]))
+                    self.alias_effects.append(e)
+                    self.mismatches.append(e)
+        return prescribed
 
     # -- histories with scoped blocks
     def apply(self, op):
@@ -869,6 +960,21 @@ class Session:
             st = self.states[k]
             over_pending = st.auto_fork_type is None and st._last_fork is not None
             forked = st.auto_fork_type is not None
+        snap = allowed = None
+        if self.oracle:
+            snap = self._snapshot()
+            allowed = set()
+            if k < n_before:
+                if op[0] in ("set", "put"):
+                    allowed.add((k, op[2]))
+                    if op[0] == "put" and self._shares_storage(k, op[2]):
+                        m = self.states[k].auto_fork_type
+                        key = ("indexed" if op[3] is not None else "full") + " put, auto-fork " + ("off" if m is None else m.name)
+                        self.alias_puts[key] = self.alias_puts.get(key, 0) + 1
+                elif op[0] in ("revert", "revmask"):
+                    allowed |= {(k, n) for n in (self.states[k]._last_fork or {})}
+                elif op[0] == "clear":
+                    allowed |= {(k, n) for n in self.indep_names()}
         out = self.execute(op)
         self._raised = self._last_exc if out[0] == "err" else None
         self._event((("out", op, out), ok))
@@ -889,11 +995,14 @@ class Session:
             elif op[0] == "clear":
                 self.after_unforked[k] = self._reverted_after[k] = False
         if self.oracle:
+            prescribed = self._check_kept(snap, allowed, op)
             touched = [k] if k < n_before else []
             if len(self.states) > n_before:
                 touched.append(len(self.states) - 1)
+            if self.alias_sets:
+                touched = list(range(len(self.states)))      # storage may be shared across states: read all of them
             for j in touched:
-                self.check_fresh(j, self._step)
+                self.check_fresh(j, self._step, prescribed.get(j))
         return (op, out, ok)
 
     # -- the oracle: every read of (a deep copy of) the state equals the read of a fresh state holding the same
@@ -907,25 +1016,35 @@ class Session:
         except Exception as e:  # noqa
             return ("err", "crash:" + type(e).__name__)
 
-    def fresh_like(self, st):
+    def fresh_like(self, st, prescribed=None):
+        """a brand new state holding the independent values of `st` — for the variables of `prescribed`, the value they had (by value)
+        before an operation that did not assign them"""
         from leaspy.variables.state import State
         fresh = State(self.G.dag)
         for name in self.G.settable():
             v = st._values[name]
+            if prescribed and name in prescribed:
+                v = prescribed[name]
             if v is not None:
-                fresh[name] = v
+                fresh[name] = v.clone()
         return fresh
 
-    def check_fresh(self, j, step):
+    def check_fresh(self, j, step, prescribed=None):
         st = self.states[j]
-        fresh = self.fresh_like(st)
+        fresh = self.fresh_like(st, prescribed)
         probe = probe_of(st)
         for name in self.G.order:
             a = self.read(probe, name)
             b = self.read(fresh, name)
             same = (a[0] == b[0]) and (same_tensor(a[1], b[1]) if a[0] == "ok" else a[1] == b[1])
+            if not same and not self.dtype_strict and a[0] == b[0] == "ok" and not hasattr(a[1], "weighted_value") and not hasattr(b[1], "weighted_value") \
+                    and a[1].shape == b[1].shape and a[1].dtype != b[1].dtype and same_tensor(a[1].double(), b[1].double()):
+                # mixed-dtype histories: same numbers, another dtype (torch's promotion with 0-d operands is not associative, so the dtype of a
+                # value selected between two sides and of its from-scratch evaluation may differ on any tree): counted, not judged
+                self.dtype_only_diffs += 1
+                same = True
             if not same:
-                self.mismatches.append(dict(step=step, state=j, node=name, taint=sorted(self.taint[j]),
+                self.mismatches.append(dict(step=step, state=j, node=name, taint=sorted(self.taint[j] | ({"alias-effect"} if prescribed else set())),
                                             expected=val_json(b[1]) if b[0] == "ok" else b[1],
                                             observed=val_json(a[1]) if a[0] == "ok" else a[1]))
                 return
@@ -1037,10 +1156,13 @@ def rand_value(rng, G, name, small=False):
     return one() if (nf and rng.random() < 0.3) else rng.randint(lo, hi)
 
 
-def gen_history(rng, G, malformed=False, length=None, max_states=3, fx=False, scoped=True):
+def gen_history(rng, G, malformed=False, length=None, max_states=3, fx=False, scoped=True, alias=0.05):
     """Generate (and execute) one history against live states.  Returns the Session.  `fx`: see Session.
     `scoped`: 7% of the steps are `with auto_fork(m)` blocks (nested up to 3 deep, 60% of them left by an exception)
-    followed by an assignment, reads, a revert and reads."""
+    followed by an assignment, reads, a revert and reads.
+    `alias`: that share of the steps has the shape "an independent variable is assigned the tensor OBJECT (or a view of the tensor) another
+    independent variable holds; then indexed / accumulating puts on either of them in every fork mode (assigned, or scoped); reads of both
+    and of their descendants; sometimes a revert; reads"."""
     s = Session(G, fx=fx)
     length = length or rng.randint(1, 40)
     sett = G.settable()
@@ -1146,9 +1268,73 @@ def gen_history(rng, G, malformed=False, length=None, max_states=3, fx=False, sc
         for _ in range(rng.randint(1, 2)):
             s.apply(["get", k, rng.choice(names)])
 
+    def alias_shape(k):
+        """`tgt` is assigned the tensor object `src` holds (or a view of it): same state, or the same / another variable of another state;
+        a population scalar expanded along the individual axis.  Then 1-3 puts on either side — indexed (assign / accumulate) or full
+        accumulate — with auto-fork off / REF / COPY (mode assigned, or `with auto_fork(m)`), reads of both variables and of descendants
+        after each, sometimes the decision (revert) and reads again."""
+        st = s.states[k]
+        cands = []
+        for tgt in sett:
+            for sk in range(len(s.states)):
+                for src in sett:
+                    if (sk, src) == (k, tgt) or s.states[sk]._values[src] is None:
+                        continue
+                    ti, si = G.by_name[tgt]["kind"] == "ind", G.by_name[src]["kind"] == "ind"
+                    if ti == si:
+                        cands += [(tgt, sk, src, h) for h in ("same", "view", "bcast")]
+                    elif ti:
+                        cands.append((tgt, sk, src, "expand"))
+        if not cands:
+            return False
+        ind_c = [c for c in cands if G.by_name[c[0]]["kind"] == "ind" and c[3] != "expand"]
+        tgt, sk, src, how = rng.choice(ind_c if (ind_c and rng.random() < 0.8) else cands)
+        m0 = rng.choice([None, None, "REF", "COPY"])
+        s.apply(["mode", k, m0])
+        if rng.random() < 0.5:
+            for n in rng.sample(names, min(len(names), 2)):
+                s.apply(["get", k, n])
+        s.apply(["set", k, tgt, val_json(s.states[sk]._values[src]), {"alias": [sk, src, how]}])
+        related = [tgt] + list(G.dag.sorted_children[tgt]) + ([src] + list(G.dag.sorted_children[src]) if src != tgt else [])
+        for n in rng.sample(related, min(len(related), rng.randint(1, 3))):
+            s.apply(["get", rng.choice([k, sk]), n])
+        for _ in range(rng.randint(1, 3)):
+            kk, n = rng.choice([(k, tgt), (k, tgt), (sk, src)])
+            if s.states[kk]._values[n] is None:
+                continue
+            if G.by_name[n]["kind"] == "ind" and rng.random() < 0.8:
+                put = ["put", kk, n, rng.randrange(G.n_ind), rng.randint(-3, 3) or 2, rng.random() < 0.6]
+            else:
+                put = ["put", kk, n, None, rand_value(rng, G, n, True), True]
+            m = rng.choice([None, None, None, "REF", "COPY"])
+            c = rng.random()
+            if c < 0.35 and scoped:
+                s.apply(["scoped", kk, m, [put] + ([["get", kk, rng.choice(related)]] if rng.random() < 0.5 else [])])
+            elif c < 0.7:
+                s.apply(["mode", kk, m])
+                s.apply(put)
+            else:
+                s.apply(put)
+            for n2 in rng.sample(related, min(len(related), rng.randint(1, 3))):
+                s.apply(["get", rng.choice([k, sk]), n2])
+            if fork_pending(kk) and rng.random() < 0.3:
+                s.apply(["revert", kk])
+                s.apply(["get", k, rng.choice(related)])
+        if len(s.states) < max_states and rng.random() < 0.3:
+            # State.clone keeps the sharing INSIDE the clone (one deepcopy): the same puts on the clone, auto-fork disabled
+            s.apply(["clone", k, True, False])
+            kc = len(s.states) - 1
+            if s.states[kc]._values[tgt] is not None and G.by_name[tgt]["kind"] == "ind":
+                s.apply(["put", kc, tgt, rng.randrange(G.n_ind), rng.randint(1, 3), rng.random() < 0.6])
+                for n2 in related:
+                    s.apply(["get", kc, n2])
+        return True
+
     while len(s.records) < length:
         k = pick_state()
         st = s.states[k]
+        if alias and rng.random() < alias and alias_shape(k):
+            continue
         if scoped and rng.random() < 0.07:
             scoped_shape(k)
             continue
